@@ -27,6 +27,10 @@ Binding, two layers:
  on FRESH tiles (no file yet), the jobs meeting inside the sampler callable (a barrier for processes, a sync point for
  threads); the thorough tier adds a real-process holder stalled for 12 s of real time.
  TLC also refutes the design "finite lock timeout + takeover" (action StealLock) on Mutex and NoLostUpdate.
+ Layer 1 also runs heterogeneous updaters: forked ones that change their environment (scheduler job ids, host, temp/home
+ directory, locale) before touching toasty, and separately STARTED interpreters (multiprocessing "spawn", launched with
+ their own environment: own str-hash salt PYTHONHASHSEED, working directory, absolute / relative spelling of the pyramid
+ directory), in controlled entering orders: mutual exclusion must hold between ANY processes updating one tile.
 """
 import json
 import os
@@ -322,12 +326,55 @@ def l1_scenarios(rng, quick):
         out.append({"name": "stalled-holder/2/npy-f32", "fmt": "npy", "mode": "f32", "cfg": cfg, "style": [["full"] * RU] * RP, "idx": len(out),
                     "stall": 12.0})
     out += env_scenarios(quick, len(out))
+    out += launch_scenarios(quick, len(out))
     return out
 
 
 ENV_VARS = ("SLURM_JOB_ID", "PBS_JOBID", "LSB_JOBID", "SLURM_NPROCS", "HOSTNAME", "TMPDIR", "HOME", "LANG")
 ENV_VALUES = {"SLURM_JOB_ID": "424242", "PBS_JOBID": "1717.head", "LSB_JOBID": "9901", "SLURM_NPROCS": "4", "HOSTNAME": "node07",
               "TMPDIR": "/tmp", "HOME": "/tmp", "LANG": "C"}
+
+
+LAUNCH_VARS = ENV_VARS + ("PYTHONHASHSEED",)
+
+
+def launch_scenarios(quick, start_idx):
+    """Updaters that are SEPARATELY STARTED INTERPRETERS (two batch jobs, two shells): nothing is inherited from a common
+    parent - each has its own str-hash salt (PYTHONHASHSEED unset = random, or different fixed values), working directory,
+    spelling of the pyramid directory (absolute / relative) and scheduler variables.  Mutual exclusion must hold between
+    ANY processes updating one tile, so they must still agree on the lock."""
+    kinds = [("npy", "f32"), ("fits", "f32"), ("png", "rgba")]
+    out = []
+    launches = [
+        ([{}, {"PYTHONHASHSEED": "12345"}, {"SLURM_JOB_ID": "77"}], ["abs", "rel-parent", "rel-dot"]),
+        ([{"PYTHONHASHSEED": "1"}, {}, {"PYTHONHASHSEED": "0", "LANG": "C"}], ["rel-up", "abs", "rel-parent"]),
+        ([{}, {}], ["abs", "abs"]),
+        ([{"PYTHONHASHSEED": "0"}, {"PYTHONHASHSEED": "4294967295"}], ["rel-dot", "rel-up"]),
+    ]
+
+    def add(k, first, caller=None):
+        envs, base = launches[k % len(launches)]
+        n = len(envs)
+        fmt, mode = kinds[k % len(kinds)]
+        if caller:
+            sc = toast_scenario(fmt, mode, n, start_idx + len(out))
+            sc["name"] = "launch-toast-sampler/%d/%d/%s" % (k, n, fmt)
+        else:
+            cfg = mkcfg([2] * n, [[1, 2]] * n, [[[p, 4], [p]] for p in range(1, n + 1)], init=((), (4,)), fmt=[p % 2 for p in range(n)])
+            sc = {"name": "launch-update_image/%d/first%d/%d/%s" % (k, first, n, fmt), "fmt": fmt, "mode": mode, "cfg": cfg,
+                  "style": [["full", "slice", "full"]] * RP, "idx": start_idx + len(out), "first": first}
+        sc.update(launch="spawn", env=list(envs) + [{}] * (RP - n), base=list(base) + ["abs"] * (RP - n), deadline=90)
+        out.append(sc)
+    if quick:
+        add(0, 1)
+        add(3, 2)
+        add(2, None, caller="toast")
+    else:
+        for k in range(len(launches)):
+            for first in range(1, len(launches[k][0]) + 1):
+                add(k, first)
+            add(k, None, caller="toast")
+    return out
 
 
 def env_scenarios(quick, start_idx):
@@ -385,6 +432,7 @@ def _l1_updater(p, sc, d, sh):
     from toasty.pyramid import PyramidIO
     warnings.simplefilter("ignore")
     ticket, cond, inside, overlap, barrier, entered = sh
+    evdir = os.path.abspath(d)
     events = []
     err = None
 
@@ -393,7 +441,22 @@ def _l1_updater(p, sc, d, sh):
             ticket.value += 1
             return ticket.value
     try:
-        if sc.get("env"):                                     # a separately launched job: its own environment, set before
+        if sc.get("launch") == "spawn":
+            repo.setup()                                      # this interpreter has not imported toasty yet
+            from toasty.pyramid import PyramidIO
+            how = sc["base"][p - 1]                           # the same pyramid directory, spelled differently
+            if how == "rel-parent":
+                os.chdir(os.path.dirname(d))
+                d = os.path.basename(d)
+            elif how == "rel-dot":
+                os.chdir(d)
+                d = "."
+            elif how == "rel-up":
+                sub = os.path.join(d, "wd-%d" % p)
+                os.makedirs(sub, exist_ok=True)
+                os.chdir(sub)
+                d = ".."
+        if sc.get("env") and sc.get("launch") != "spawn":     # a separately launched job: its own environment, set before
             for var in ENV_VARS:                              # anything of toasty's is created or called
                 val = sc["env"][p - 1].get(var)
                 if val is None:
@@ -409,7 +472,7 @@ def _l1_updater(p, sc, d, sh):
             from toasty.toast import ToastSampler, generate_tiles
             tiles = {tuple(tl.pos): tl for tl in generate_tiles(POS_XY[1][0])}
             flip = pio.get_default_vertical_parity_sign() == 1      # visit_callback flips rows for bottom-up formats
-        barrier.wait(30)
+        barrier.wait(90)
         for i in range(1, cfg["nupd"][p - 1] + 1):
             t = cfg["pos"][p - 1][i - 1]
             region = cfg["reg"][p - 1][i - 1]
@@ -449,7 +512,7 @@ def _l1_updater(p, sc, d, sh):
                 events.append({"ev": "modify", "p": p, "i": i, "px": px1, "t": t1})
     except BaseException as e:  # noqa
         err = "%s: %s" % (type(e).__name__, str(e)[:200])
-    with open(os.path.join(d, "ev-%d.json" % p), "w") as f:
+    with open(os.path.join(evdir, "ev-%d.json" % p), "w") as f:
         json.dump({"events": events, "error": err}, f)
     os._exit(0)
 
@@ -457,7 +520,8 @@ def _l1_updater(p, sc, d, sh):
 def _l1_run(sc, d):
     """Run one scenario with real processes; returns the recording."""
     import multiprocessing as mp
-    ctx = mp.get_context("fork")
+    spawn = sc.get("launch") == "spawn"
+    ctx = mp.get_context("spawn" if spawn else "fork")
     os.makedirs(d, exist_ok=True)
     pio = prepare_dir(sc, d)
     procs = [p for p in range(1, RP + 1) if sc["cfg"]["nupd"][p - 1] > 0]
@@ -467,7 +531,23 @@ def _l1_run(sc, d):
     ws = []
     for p in procs:
         w = ctx.Process(target=_l1_updater, args=(p, sc, d, sh))
-        w.start()
+        if spawn:
+            # a separately started interpreter: launched with its own environment (what Python reads at start-up - the str
+            # hash salt PYTHONHASHSEED - included); nothing but the files and the harness's primitives is shared
+            saved = dict(os.environ)
+            try:
+                for var in LAUNCH_VARS:
+                    val = sc["env"][p - 1].get(var)
+                    if val is None:
+                        os.environ.pop(var, None)
+                    else:
+                        os.environ[var] = val
+                w.start()
+            finally:
+                os.environ.clear()
+                os.environ.update(saved)
+        else:
+            w.start()
         ws.append(w)
     stuck = []
     deadline = time.time() + sc.get("deadline", 60)
@@ -616,6 +696,7 @@ class Harness(object):
         self.partial_read = False
         self.gates_seen = set()
         self._tile_cache = {}
+        self.lock_files = set()
 
     # -- actor side
     def gate(self, kind, *payload):
@@ -683,11 +764,24 @@ class Harness(object):
             o_acq, o_rel = filelock.SoftFileLock._acquire, filelock.SoftFileLock._release
             o_read, o_save = PyramidIO.read_image, Image.save
             o_time = getattr(fapi, "time", None)
+            o_unlink, o_remove = os.unlink, os.remove
+
+            def gated_delete(orig):
+                # deleting a lock file is a lock-affecting step of its own (unless it is the release itself doing it)
+                def delete(path, *a, **k):
+                    me = H.S.me()
+                    if me is not None and not H.S.killed and not H.info[me].get("in_release"):
+                        sp = os.fspath(path)
+                        if isinstance(sp, str) and (sp.endswith(".lock") or sp in H.lock_files):
+                            H.gate("unlink-lock", sp)
+                    return orig(path, *a, **k)
+                return delete
 
             def _acquire(self):
                 me = H.S.me()
                 if me is None:
                     return o_acq(self)
+                H.lock_files.add(self.lock_file)
                 H.gate("try", self.lock_file)
                 o_acq(self)
                 ok = bool(self.is_locked)
@@ -703,7 +797,11 @@ class Harness(object):
                 if me is None:
                     return o_rel(self)
                 H.gate("release")
-                o_rel(self)
+                H.info[me]["in_release"] = True
+                try:
+                    o_rel(self)
+                finally:
+                    H.info[me]["in_release"] = False
                 if H.holder.get(self.lock_file) == me:
                     del H.holder[self.lock_file]
                 H.info[me]["holding"] = None
@@ -745,6 +843,7 @@ class Harness(object):
                         H.log("wend")
             filelock.SoftFileLock._acquire, filelock.SoftFileLock._release = _acquire, _release
             PyramidIO.read_image, Image.save = read_image, save
+            os.unlink, os.remove = gated_delete(o_unlink), gated_delete(o_remove)
             if o_time is not None:
                 fapi.time = _VirtualTime()
             try:
@@ -755,6 +854,7 @@ class Harness(object):
                 finally:
                     filelock.SoftFileLock._acquire, filelock.SoftFileLock._release = o_acq, o_rel
                     PyramidIO.read_image, Image.save = o_read, o_save
+                    os.unlink, os.remove = o_unlink, o_remove
                     if o_time is not None:
                         fapi.time = o_time
         return cm()
@@ -1124,6 +1224,27 @@ def run(ctx):
             traces.append(("thread-level schedule", dfs_sc, rec, []))
             ctx.count(2)
         ctx.note("dfs_2x1", {"schedules": nruns, "complete": explored_all, "failed_attempts_per_updater_at_most": fb})
+        # 2b exhaustive: one updater with two updates of the tile, one with one (anything an updater does to the lock between
+        # or after its updates meets a live holder here)
+        dfs21 = dict(dfs_sc, name="dfs-2+1", cfg=mkcfg([2, 1], [[1, 1], [1]], [[[1, 4], [3]], [[2, 4]]], fmt=[0, 1]))
+        stack, n21, cap21 = [[]], 0, (120 if quick else 3000)
+        while stack and n21 < cap21:
+            prefix = stack.pop()
+
+            def chooser(H, allowed, n, prefix=prefix):
+                if n < len(prefix):
+                    return allowed.index(prefix[n]) if prefix[n] in allowed else 0
+                return 0
+            rec, alts = explore_run(dfs21, ctx.mkdtemp("dfs21"), chooser, fail_bound=0 if quick else 1)
+            n21 += 1
+            sched = rec["schedule"]
+            for k in range(len(prefix), len(sched)):
+                for alt in alts[k]:
+                    if alt != sched[k]:
+                        stack.append(sched[:k] + [alt])
+            traces.append(("thread-level schedule", dfs21, rec, []))
+            ctx.count(3)
+        ctx.note("dfs_2+1", {"schedules": n21, "complete": not stack})
         # 2b exhaustive, the in-tree caller: two ToastSampler jobs on one FRESH tile (sampler call, lock, read, save begin/end
         # are the sync points), then three jobs at random
         tdfs = toast_scenario("npy", "f32", 2, 0)
